@@ -37,24 +37,47 @@ EXPLANATION = ("exit-branch theorems (S2) are proved on the Lean step functions 
                "the Lean driver (exact on decisions), and searches the real code with a ground truth that is constructed, "
                "not computed by any library routine")
 PARTIAL = {
-    "jolt_true_sound": "step-level (for every loop state), with the C18 solver specification as hypothesis SolverInHull (returned "
-                       "point lies in A-B, reported |v|^2 exact, 0xf only for the origin); the invariant 'all Y[i] in A-B' "
-                       "through update_simplex_y is not proved, so there is no function-level form",
-    "jolt_false_stall_not_deep": "step-level, with the C18 optimality hypothesis SolverBeatsSegment and the loop invariant "
-                                 "dir = -v_prev, prev = |v_prev|^2 stated as hypotheses; first iteration (prev = MAX_FLOAT) not covered",
+    "jolt_true_sound (closed on JoltGood)":
+        "proved at three levels: step level with the solver facts as hypothesis (jolt_true_sound) and with the REAL "
+        "solver (jolt_true_sound_real: SolverInHull is a theorem for Simplex.getClosestPointToOrigin on JoltGood "
+        "simplices, jolt_solverInHull); every reachable loop state (jolt_reach_true_sound; the invariant 'n <= 3, all "
+        "Y[i] in A-B, dir = -v, prev = |v|^2 > 0, v in hull(Y[:n])' is proved through update_simplex_y: "
+        "jolt_inv_preserved, jolt_inv_reachable); function level (jolt_fn_true_sound, jolt_fn_true_dist: True => "
+        "dist(A,B) <= max(tol, sqrt(eps) R); jolt_fn_gap_false / jolt_fn_gap_answers_false). Remaining hypothesis: "
+        "VisitedGood JoltGood = every simplex the run hands to the solver is outside the C18 degeneracy bands (decidable "
+        "per simplex: driver C02.jolt.good = joltGoodB at Rat; dischargeable from a property of A-B: "
+        "jolt_visitedGood_of_mdiff; fully discharged for two points and for two cubes). Nothing is claimed for runs that "
+        "visit a simplex inside the bands (C18 finding F-C18-jolt-abs-eps)",
+    "jolt_false_stall_not_deep (closed on JoltGood)":
+        "SolverBeatsSegment is a theorem for the real solver on JoltGood simplices (jolt_solverBeatsSegment, "
+        "jolt_false_stall_not_deep_real); the loop invariant dir = -v_prev, prev = |v_prev|^2 is proved "
+        "(jolt_inv_reachable) and the first iteration is covered (prev = MAX_FLOAT: needs |w0|^2 < (1-eps) MAX_FLOAT, the "
+        "same finiteness hypothesis as C01). Function level: jolt_fn_deep_true (a delta-deep pair with eps diam(A-B)^2 < "
+        "4 delta^2 is never answered False: none of the exits 0/1/5 can be taken in any iteration) and, with "
+        "jolt_fn_terminates (tol != 0), jolt_fn_deep_answers_true (returns True for every sufficiently large fuel). "
+        "Remaining hypothesis: VisitedGood JoltGood, as above",
     "mpr_outside_portal_sound": "the degenerate zero search direction (v0, v1, v2 collinear inside the discover loop) is not excluded: "
                                 "the theorem concludes that a False on a delta-deep pair can only come from that case",
     "mpr_refine_true_sound_under_portal_invariant": "PortalInv (origin ray through the portal, non-degenerate) is a hypothesis; it is NOT "
                                                     "preserved by the code (view-based _swap_vertices, `< EPSILON` ties): see "
                                                     "mpr_refine_true_flat_portal_asIs_counterexample and finding F-mpr-origin-on-portal-side-plane",
-    "mpr_iteration_cap_exit": "no theorem for discover branch 6 (portal declared built after max_iterations)",
+    "mpr_iteration_cap_exit (closed)":
+        "proved (C02Link): if _discover_portal leaves through `it >= max_iterations` with an unfinished portal (discover "
+        "branch 6), the portal has a repeated vertex (the last _iterate_discover_portal copied v3 over v1 or v2), "
+        "_portal_direction is norm_vector(0) = 0 and mpr_intersection answers True in the first refinement pass, for "
+        "every pair of colliders (answer by fiat, no geometric content). Reachability from the top of mpr_intersection is "
+        "shown for max_iterations = 1 with an explicit mapping (capSup_discover_br6); no collider pair reaching the cap "
+        "with the default max_iterations is known",
     "mpr_refine_termination": "_refine_portal has no iteration cap; termination is not proved (model: fuel, Err.fuel)",
     "libccd_contact_origin_in_tetra_nondegenerate": "non-zero volume and 'origin on the newest point's side of the oldest face' are "
                                                     "hypotheses; zero-volume simplices make the three sign tests compare 0 == 0",
-    "libccd_degenerate_exits": "no theorem for touching_contact (point_to_triangle < sqrt(eps)), degenerated_triangle / "
-                               "degenerated_tetrahedron (NO_CONTACT), origin_on_AB_segment, origin_lies_on_tetrahedrons_face, "
-                               "|dir|^2 < EPSILON and the iteration-cap exit (all answer by fiat); they are compared step-wise and "
-                               "searched by the oracle only",
+    "libccd_degenerate_exits":
+        "no theorem for touching_contact (point_to_triangle < sqrt(eps)), degenerated_triangle / degenerated_tetrahedron "
+        "(NO_CONTACT), origin_lies_on_tetrahedrons_face, |dir|^2 < EPSILON and the iteration-cap exit (all answer by "
+        "fiat); they are compared step-wise and searched by the oracle only. origin_on_AB_segment now has a step-level "
+        "theorem (libccd_origin_on_segment_near: the CONTACT answer of _line_segment with both simplex points in A-B "
+        "yields a in A, b in B with |a-b|^2 |AB|^2 < EPSILON under the side condition A.B <= |B|^2, which the code does "
+        "not test); no function-level form (the invariant 'simplex points in A-B' is not proved for the libccd loop)",
     "nesterov": "gjk_nesterov_accelerated(_primitives)_intersection are not modelled; oracle only (finding "
                 "F-nesterov-project-tetra-outside-simplex; the inflation defect found by this oracle was repaired upstream, 78b7577)",
 }
@@ -76,7 +99,9 @@ MANIFEST = dict(
     text=("Lean exit-branch theorems (S2, abstract support mappings, all convex sets, all loop states) for the Jolt, MPR and libccd "
           "boolean tests: separating-axis / before-origin / refine-false exits imply disjointness, MPR outside-portal and tolerance "
           "exits imply 'not delta-deep' via deep_support_margin, Jolt's True exits imply dist <= max(tol, sqrt(eps) max|Y|) and its "
-          "stall exits are impossible for deep pairs (given the C18 solver spec), MPR's True exit is sound under the portal invariant "
+          "stall exits are impossible for deep pairs; Jolt's theorems hold for the model of the real simplex solver on JoltGood "
+          "simplices (C18 link) at step, reachable-state and function level, including termination and no-failure of the loop; "
+          "MPR's True exit is sound under the portal invariant "
           "and provably unsound without it. The loop-body models are tied to the code by replaying every recorded loop-body call of "
           "real runs (and synthetic inputs around every branch) through the Lean driver, exact on decisions. The oracle constructs "
           "collider pairs of all types at a prescribed gap / witness depth (truth independent of any library test) and requires "
